@@ -43,14 +43,28 @@ def s1(ctx, rep):
         if f['name'] in ITEM_VISITORS:
             parser = ITEM_VISITORS[f['name']]
             cr = [c for c in f['calls'] if c.get('f') == 'collect_result']
-            rep.check(len(cr) == 1 and any(x.get('f') == parser for x in vt.calls_in(cr[0]['args'][0])) if cr else False, 'S1', f"{f['name']}:collects", f'collect_result({parser}(..))', f"{f['name']} does not hand {parser}(item) to collect_result", site)
+            rep.check(len(cr) == 1 and any(x.get('f') == parser for a in cr[0].get('args', []) for x in vt.calls_in(a)) if cr else False, 'S1', f"{f['name']}:collects", f'collect_result({parser}(..))', f"{f['name']} does not hand {parser}(item) to collect_result", site)
             if cr:
                 frames = [fr for fr in cr[0]['guard'] if fr.get('k') == 'if']
-                tests = ' && '.join(('!' if fr.get('neg') else '') + vt.show(fr['c']) for fr in frames).replace(' ', '')
                 item = f['params'][1]['name']
-                want = f"(has_typeshare_annotation({item}.attrs)&&self.target_os_accepted({item}.attrs))"
-                alt = f"(self.target_os_accepted({item}.attrs)&&has_typeshare_annotation({item}.attrs))"
-                rep.check(tests in (want, alt), 'S1', f"{f['name']}:guard", 'collected iff annotated ∧ target accepted', f"{f['name']} collects the item under `{tests[:120]}` — expected exactly has_typeshare_annotation(&{item}.attrs) && target_os_accepted(&{item}.attrs): items are dropped or un-annotated items generated", site)
+
+                def conj(v):
+                    v = vt.unvar(v)
+                    if isinstance(v, dict) and v.get('k') == 'op' and v.get('op') == '&&':
+                        return [t for a in v['args'] for t in conj(a)]
+                    if isinstance(v, dict) and v.get('k') == 'paren':
+                        return conj(v.get('v'))
+                    return [v]
+                terms = set()
+                negated = False
+                for fr in frames:
+                    if fr.get('neg'):
+                        negated = True
+                    terms |= {vt.show(t).replace(' ', '') for t in conj(fr['c'])}
+                tests = ' && '.join(sorted(terms))
+                want = {f"has_typeshare_annotation({item}.attrs)", f"self.target_os_accepted({item}.attrs)"}
+                alt = want
+                rep.check(terms == want and not negated, 'S1', f"{f['name']}:guard", 'collected iff annotated ∧ target accepted', f"{f['name']} collects the item under `{tests[:120]}` — expected exactly has_typeshare_annotation(&{item}.attrs) && target_os_accepted(&{item}.attrs): items are dropped or un-annotated items generated", site)
         if f['name'] in LEAF_VISITORS:
             continue
         default = [c for c in f['calls'] if c.get('f') == f"syn::visit::{f['name']}"]
